@@ -571,6 +571,24 @@ def lazyLoadVersion (st : St) (target : Int) : Option (St × ViewRes) :=
     let tv : Nat := if target ≤ 0 then latest else target.toNat
     getImmutable st tv
 
+/-- **Mutated variant** (counterexample only; mirrors seeded change C09-a): `LazyLoadVersion` with a
+"fast path" that reuses the live working root when the requested version is the loaded one and the
+working root is a persisted object ("every write rebuilds the path up to a new unpersisted root").
+`Remove` of a leaf hanging directly under the root makes the *persisted sibling* the working root,
+so the premise is false. -/
+def lazyLoadVersionFast (st : St) (t : MT) (target : Int) : Option (St × ViewRes) :=
+  let latest := st.latestVersion
+  if (latest : Int) < target then some (st, .errTooNew)
+  else if latest = 0 then some (st, .nilTree)
+  else
+    let tv : Nat := if target ≤ 0 then latest else target.toNat
+    match t.root with
+    | some a =>
+      match st.heap[a]? with
+      | some c => if tv = t.version && c.persisted then some (st, .view (some a) tv) else getImmutable st tv
+      | none => none
+    | none => getImmutable st tv
+
 /-- `MutableTree.LoadVersion target` on the same tree object (`target = 0`: latest).  Returns the
 loaded version; `none` in the second component = the "wanted to load target" error. -/
 def loadVersion (st : St) (t : MT) (target : Nat) : Option (St × MT × Option Nat) :=
